@@ -440,8 +440,9 @@ def oracles(ctx: Ctx) -> None:
                 ("not-utf8", b"\xff\xfe[tool.refurb]\n", []), ("cli-bad-option", "", ["--nope"]), ("cli-missing-value", "", ["--enable"]),
                 ("cli-bad-version", "", ["--python-version", "x"]), ("cli-both-all", "", ["--enable-all", "--disable-all"]),
                 ("cli-empty-arg", "", [""]), ("cli-bad-format", "", ["--format", "json"]), ("cli-explain-bad", "", ["--explain", "x"]),
-                ("config-missing", None, ["--config-file", "nope.toml"]), ("config-is-dir", None, ["--config-file", "."])]
-        for name, text, extra in scen[: ctx.budget(20, 20)]:
+                ("config-missing", None, ["--config-file", "nope.toml"]), ("config-is-dir", None, ["--config-file", "."]),
+                ("config-path-through-a-file", None, ["--config-file", "t.py/conf.toml"]), ("config-name-too-long", None, ["--config-file", "x" * 300 + ".toml"])]
+        for name, text, extra in scen[: ctx.budget(24, 24)]:
             cfgp = Path(td) / "pyproject.toml"
             if cfgp.exists():
                 cfgp.unlink()
